@@ -48,6 +48,9 @@ type mismatch struct {
 
 const stepTimeout = 20 * time.Second
 
+// real timestamp = model timestamp + tsOff (the filler of the deep variant lives at version 1)
+const tsOff = 10
+
 var keyNames = []string{"", "ka", "kb", "kc"}
 
 func value(k int, ts uint64) []byte {
@@ -65,7 +68,7 @@ type heldItem struct {
 	ts   uint64
 }
 
-func runCase(steps []Step) (int, *mismatch) {
+func runCase(steps []Step, deep bool) (int, *mismatch) {
 	dir, err := os.MkdirTemp("", "gcreplay-")
 	if err != nil {
 		vh.Fatalf("%v", err)
@@ -75,6 +78,12 @@ func runCase(steps []Step) (int, *mismatch) {
 	defer rec.Uninstall()
 	o := vh.SmallOptions(dir)
 	o.MaxLevels = 2
+	if deep {
+		// three levels and a tiny BaseLevelSize: once the last level holds a table the base level
+		// moves up, so that later compactions target a level that is NOT the last one
+		o.MaxLevels = 3
+		o.BaseLevelSize = 64
+	}
 	o.ValueThreshold = 32
 	o.ValueLogMaxEntries = 1 // rotate once a file holds two records (FileCap = 2)
 	o.NumVersionsToKeep = 1
@@ -83,7 +92,23 @@ func runCase(steps []Step) (int, *mismatch) {
 		return 0, &mismatch{"open.error", err.Error()}
 	}
 	defer db.Close()
-	var nextTs uint64 = 1
+	if deep {
+		txn := db.NewTransactionAt(1, true)
+		if err := txn.Set([]byte("zz-filler"), []byte("f")); err != nil {
+			return 0, &mismatch{"harness.filler", err.Error()}
+		}
+		if err := txn.CommitAt(1, nil); err != nil {
+			return 0, &mismatch{"harness.filler", err.Error()}
+		}
+		txn.Discard()
+		if err := db.VerifFlush(); err != nil {
+			return 0, &mismatch{"harness.filler", err.Error()}
+		}
+		if err := db.VerifDoCompact(1, 0, 1.0, 1.0); err != nil {
+			return 0, &mismatch{"harness.filler", err.Error()}
+		}
+	}
+	var nextTs uint64 = 1 + tsOff
 	// model fid -> real fid: learnt when a record is written (the file that was current)
 	realFid := map[int]uint32{}
 	var putDone chan error
@@ -135,7 +160,6 @@ func runCase(steps []Step) (int, *mismatch) {
 	deleted := map[int]bool{}
 	compactInWindow := false // a compaction ran between the GC scan and its write-back
 	inWindow := false
-	getItemHeldAtDelete := false
 	for i, s := range steps {
 		switch s.Op {
 		case "putVlog":
@@ -170,7 +194,7 @@ func runCase(steps []Step) (int, *mismatch) {
 				return i, &mismatch{"del.error", err.Error()}
 			}
 		case "discard":
-			db.SetDiscardTs(s.Exp.DiscardTs)
+			db.SetDiscardTs(s.Exp.DiscardTs + tsOff)
 		case "compact":
 			if inWindow {
 				compactInWindow = true
@@ -219,7 +243,6 @@ func runCase(steps []Step) (int, *mismatch) {
 			}
 		case "gcDelete":
 			inWindow = false
-			getItemHeldAtDelete = len(held) > 0
 			gScanned.Disarm()
 			gBeforeDelete.Disarm()
 			select {
@@ -233,7 +256,10 @@ func runCase(steps []Step) (int, *mismatch) {
 			gcDone, gScanned, gBeforeDelete = nil, nil, nil
 		case "iterOpen":
 			iterTxn = db.NewTransactionAt(^uint64(0), false)
-			iter = iterTxn.NewIterator(badger.DefaultIteratorOptions)
+			io := badger.DefaultIteratorOptions
+			io.AllVersions = true
+			io.PrefetchValues = false
+			iter = iterTxn.NewIterator(io)
 		case "iterClose":
 			iter.Close()
 			iterTxn.Discard()
@@ -261,11 +287,35 @@ func runCase(steps []Step) (int, *mismatch) {
 				return i, &mismatch{"item.error", fmt.Sprintf("item %s@%d from Txn.Get: %v", keyNames[h.k], h.ts, err)}
 			}
 			if !bytes.Equal(v, value(h.k, h.ts)) {
-				q := ""
-				if getItemHeldAtDelete && iter == nil {
-					q = " (item from Txn.Get, no iterator open when the rewrite deleted the file)"
-				}
+				q := " (item from Txn.Get of an open transaction: only iterators defer the deletion of a rewritten file)"
 				return i, &mismatch{"item.valueLost" + q, fmt.Sprintf("item %s@%d obtained by Txn.Get of a still-open transaction returned %d bytes (want %d) after step %d (%s)", keyNames[h.k], h.ts, len(v), len(value(h.k, h.ts)), i, s.Op)}
+			}
+		}
+		// an open iterator (it pins the tables it was created on) must keep yielding the value of
+		// every version it shows
+		if iter != nil {
+			for iter.Rewind(); iter.Valid(); iter.Next() {
+				it := iter.Item()
+				if it.IsDeletedOrExpired() || len(it.Key()) < 2 || it.Key()[0] != 'k' {
+					continue
+				}
+				k := 0
+				for j, n := range keyNames {
+					if n == string(it.Key()) {
+						k = j
+					}
+				}
+				if k == 0 {
+					continue
+				}
+				v, err := it.ValueCopy(nil)
+				if err != nil || !bytes.Equal(v, value(k, it.Version())) {
+					q := ""
+					if inflightAtScan {
+						q = " (rewrite scanned a file while a request was between vlog.write and writeToLSM)"
+					}
+					return i, &mismatch{"iter.valueLost" + q, fmt.Sprintf("after step %d (%s): the open iterator shows %s@%d but its value has %d bytes (err %v): the value-log file was removed while the iterator is open", i, s.Op, it.Key(), it.Version(), len(v), err)}
+				}
 			}
 		}
 		// every read at or above the watermark must be what the contract says
@@ -278,12 +328,12 @@ func runCase(steps []Step) (int, *mismatch) {
 					continue
 				}
 				want := row.At[ts-1]
-				txn := db.NewTransactionAt(uint64(ts), false)
+				txn := db.NewTransactionAt(uint64(ts)+tsOff, false)
 				item, err := txn.Get([]byte(keyNames[row.K]))
 				got := 0
 				var val []byte
 				if err == nil {
-					got = int(item.Version())
+					got = int(item.Version()) - tsOff
 					val, err = item.ValueCopy(nil)
 					if err != nil {
 						txn.Discard()
@@ -307,12 +357,12 @@ func runCase(steps []Step) (int, *mismatch) {
 					}
 					return i, &mismatch{"read." + kind + q, fmt.Sprintf("after step %d (%s): Get(%s)@%d returns version %d, contract says %d (discardTs=%d)", i, s.Op, keyNames[row.K], ts, got, want, s.Exp.DiscardTs)}
 				}
-				if got != 0 && !bytes.Equal(val, value(row.K, uint64(got))) {
+				if got != 0 && !bytes.Equal(val, value(row.K, uint64(got)+tsOff)) {
 					q := ""
 					if inflightAtScan {
 						q = " (rewrite scanned a file while a request was between vlog.write and writeToLSM)"
 					}
-					return i, &mismatch{"read.emptyValue" + q, fmt.Sprintf("after step %d (%s): Get(%s)@%d finds version %d but its value has %d bytes (want %d): dangling value pointer", i, s.Op, keyNames[row.K], ts, got, len(val), len(value(row.K, uint64(got))))}
+					return i, &mismatch{"read.emptyValue" + q, fmt.Sprintf("after step %d (%s): Get(%s)@%d finds version %d but its value has %d bytes (want %d): dangling value pointer", i, s.Op, keyNames[row.K], ts, got, len(val), len(value(row.K, uint64(got)+tsOff)))}
 				}
 			}
 		}
@@ -333,11 +383,15 @@ func main() {
 		if i%*nshard != *shard {
 			return nil
 		}
-		var steps []Step
-		if err := json.Unmarshal(line, &steps); err != nil {
+		var cs struct {
+			Deep  bool   `json:"deep"`
+			Steps []Step `json:"steps"`
+		}
+		if err := json.Unmarshal(line, &cs); err != nil {
 			return err
 		}
-		at, m := runCase(steps)
+		steps := cs.Steps
+		at, m := runCase(steps, cs.Deep)
 		out := map[string]interface{}{"case": i, "ok": m == nil}
 		if m != nil {
 			out["step"], out["sig"], out["detail"] = at, m.Sig, m.Detail
